@@ -151,7 +151,17 @@ func (tr *rawXMLValueReader) Token() (xml.Token, error) {
 
 	if !tr.start {
 		tr.start = true
-		return start, nil
+		// The names of the captured tokens are already resolved. Leave out
+		// the prefix declarations: a decoder reading these tokens would
+		// apply them a second time, to namespace names which happen to be
+		// spelled like one of the prefixes.
+		attrs := make([]xml.Attr, 0, len(start.Attr))
+		for _, attr := range start.Attr {
+			if attr.Name.Space != "xmlns" {
+				attrs = append(attrs, attr)
+			}
+		}
+		return xml.StartElement{Name: start.Name, Attr: attrs}, nil
 	}
 
 	for tr.child < len(tr.val.children) {
